@@ -58,19 +58,20 @@ type Violation struct {
 type Sim struct {
 	T *Tape
 
-	mu      sync.Mutex
-	tickets []*Ticket
-	tasks   map[int64]*Task
-	owners  map[any]*Task
-	readers map[any]int // read-lock holders per RWMutex
-	events  []Event
-	rootSeq int
-	Step    int
-	free    bool // pass-through (teardown, or sequential worlds)
-	root    *Task
-	wake    chan struct{}
-	closing bool // teardown has begun: goroutines run freely, nothing is logged or judged
-	start   time.Time
+	mu        sync.Mutex
+	tickets   []*Ticket
+	tasks     map[int64]*Task
+	owners    map[any]*Task
+	readers   map[any]int // read-lock holders per RWMutex
+	events    []Event
+	rootSeq   int
+	Step      int
+	free      bool // pass-through (teardown, or sequential worlds)
+	root      *Task
+	wake      chan struct{}
+	lateLocks int
+	closing   bool // teardown has begun: goroutines run freely, nothing is logged or judged
+	start     time.Time
 
 	Viol   *Violation
 	Faults map[string]int // fired fault counts
@@ -261,6 +262,7 @@ func (s *Sim) Lock(l interface {
 	for {
 		s.mu.Lock()
 		free := s.free
+		s.lateSpin()
 		s.mu.Unlock()
 		if free {
 			l.Lock()
@@ -317,6 +319,7 @@ func (s *Sim) RLock(l interface {
 	for {
 		s.mu.Lock()
 		free := s.free
+		s.lateSpin()
 		s.mu.Unlock()
 		if free {
 			l.RLock()
@@ -502,6 +505,23 @@ func (s *Sim) Note(format string, a ...any) {
 // Closing marks the beginning of teardown. From here on parked goroutines
 // are released all at once and run unscheduled, so their events are neither
 // logged nor judged (only FailLate, used by teardown checks, still records).
+// lateSpin (called with s.mu held) counts lock acquisitions during teardown.
+// A task that never stops - it spins on a lock although every context is
+// cancelled and every service is gone - would keep the bubble from ending:
+// after a generous number of acquisitions it is parked for good (the run has
+// been judged by then; the abandoned goroutine ends the bubble abnormally,
+// which runOne tolerates when a verdict exists).
+func (s *Sim) lateSpin() {
+	if !s.closing {
+		return
+	}
+	s.lateLocks++
+	if s.lateLocks > 300000 {
+		s.mu.Unlock()
+		select {}
+	}
+}
+
 func (s *Sim) Closing() { s.mu.Lock(); s.closing = true; s.mu.Unlock() }
 
 // Log appends a canonical event on behalf of the calling task.
